@@ -112,7 +112,12 @@ def images(rng, tier):
         yield 'random-fill', B(fill='random')
         # the zones
         yield 'zone-back-meta', B(meta_offset=rng.choice([0, 64 * KI, 192 * KI, 200 * KI, 256 * KI - 1]))
-        yield 'zone-back-item', B(item_offset=rng.choice([0, 32, 40, 63]))
+        yield 'zone-back-item', B(meta_pad_before=0, meta_pad_after=3, item_offset=rng.choice([64, 100, 152]))
+        yield 'zone-back-item-self', B(item_offset=rng.choice([0, 32, 40, 63]))
+        # inside the plugin's (wider) Python zone F2 but outside the Coq zone: the entry table is not all there
+        yield 'back-item-table-truncated', B(meta_offset=300 * KI, meta_pad_before=0, meta_pad_after=3, item_offset=100,
+                                             length=300 * KI + rng.choice([64, 70, 127, 159]))
+        yield 'zone-meta-sig-short', B(meta_offset=300 * KI, meta_sig=b'metadatb', length=300 * KI + rng.choice([8, 31, 32, 33]))
         yield 'zone-meta-sig', B(meta_sig=b'metadatb', tail=rng.choice([0, 70000]))
         img = B()
         for t in imgbuild.truncations(img):
@@ -140,6 +145,34 @@ def chunk_lists(rng, n, bounds):
     out.append([x for s in sz for x in ([0, s] if rng.random() < 0.3 else [s])] + [0])
     return out
 
+# ------------------------------------------------------------------ the Coq zones, as Python predicates on the bytes
+G_META = imgbuild.guid_bytes(imgbuild.GUID_METAREGION)
+G_VDS = imgbuild.guid_bytes(imgbuild.GUID_VDS)
+def _le(b, o, w): return int.from_bytes(b[o:o + w], 'little')
+def zone_tight(d):
+    """exactly zone_vhdx_backptr / zone_vhdx_metasig of coq/Model/C01_Vhdx.v: -> (F2 bool, F4 bool).
+    (tools/props/C01.py zone() is a superset: it also looks for the size item in an entry table that the
+    stream does not contain completely.)"""
+    if len(d) < 256 * KI: return (False, False)
+    t = d[192 * KI:256 * KI]
+    if t[:4] != b'regi' or _le(t, 8, 4) >= 2048: return (False, False)
+    for i in range(_le(t, 8, 4)):
+        e = t[16 + 32 * i:48 + 32 * i]
+        if e[:16] == G_META:
+            mo = _le(e, 16, 8)
+            mt = d[mo:mo + 64 * KI]
+            f4 = len(mt) >= 32 and mt[:8] != b'metadata'
+            f2 = mo < 256 * KI
+            cnt = _le(mt, 10, 2); es = 32 + 32 * cnt
+            if not f4 and len(mt) >= 32 and len(mt) >= es and cnt < 2048:
+                for j in range(cnt):
+                    me = mt[32 + 32 * j:64 + 32 * j]
+                    if me[:16] == G_VDS:
+                        f2 = f2 or _le(me, 16, 4) < es
+                        break
+            return (f2, f4)
+    return (False, False)
+
 def default_zone(c):
     import importlib
     return importlib.import_module('props.C01').zone(c)
@@ -152,6 +185,10 @@ def extra_checks(rng, tier, zone=None):
     for (lab, data, bounds), (sv, f2, f4) in zip(todo, specs):
         c0 = case_of(data, [len(data)], lab)
         pz = zone(c0)
+        # the Python rendering of the Coq zones agrees with the extracted Coq predicates
+        tz = zone_tight(data)
+        yield 'vspec-zone-eq', c0, (None if tz == (f2, f4) else
+                                    'zone predicates: Coq says (F2,F4)=%r, their Python rendering zone_tight says %r' % ((f2, f4), tz))
         if f2 or f4:
             # the Coq zones must lie inside the plugin's (the theorem's hypothesis and the check's zone must agree)
             msg = None if pz else 'vhdx_spec: Coq zone %s holds but the plugin zone() is None' % ('F2' if f2 else 'F4')
